@@ -454,3 +454,74 @@ def rule_G5(ctx, pairs=BRACKETS, floor=25, rid='G5'):
     pc = ast.parse("def g(self, code):\n    code.begin_block()\n    if self.x:\n        return\n    code.end_block()\n").body[0]
     r.positive_control(analyse(pc, 'begin_block', 'end_block') == [0, 1], 'early return inside a block')
     return r
+
+
+# ---------------------------------------------------------------------------- G7 unmanaged reference across an error exit
+def rule_G7(ctx, floor=4):
+    """A reference held in an *unmanaged* temp (allocate_temp(..., manage_ref=False): the error cleanup of the function does
+    not release it) that a generator function releases itself must be released before any error exit is emitted after its last
+    use: `r = call(v, ...); decref(v); if (!r) goto error` — never `...; if (!r) goto error; decref(v)`."""
+    r = Rule('G7', 'owned references in unmanaged temps are released before the first error exit emitted after their last use', floor)
+    names = set()          # attribute names (self.x = allocate_temp(.., manage_ref=False)): visible across functions
+    local_names = {}       # function -> plain local names allocated unmanaged in that function
+    for m, qn, owner, fn in gen_functions(ctx):
+        for n in walk_no_nested(fn):
+            if isinstance(n, ast.Assign) and isinstance(n.value, ast.Call) and isinstance(n.value.func, ast.Attribute) and n.value.func.attr == 'allocate_temp':
+                kw = {k.arg: k.value for k in n.value.keywords}
+                mr = kw.get('manage_ref') or (n.value.args[1] if len(n.value.args) > 1 else None)
+                if isinstance(mr, ast.Constant) and mr.value is False:
+                    k = recv_key(n.targets[0])
+                    if k and isinstance(n.targets[0], ast.Attribute):
+                        names.add(k.split('.')[-1])
+                    elif k:
+                        local_names.setdefault(fn, set()).add(k)
+    if len(names) + sum(len(v) for v in local_names.values()) < 10:
+        raise AnalysisError('only %d unmanaged temp names found' % len(names))
+
+    def mentions(node, name):
+        return any((isinstance(x, ast.Name) and x.id == name) or (isinstance(x, ast.Attribute) and x.attr == name) for x in ast.walk(node))
+
+    def check_list(stmts, report, names):
+        for i, s in enumerate(stmts):
+            for call in [x for x in ast.walk(s) if isinstance(x, ast.Call) and isinstance(x.func, ast.Attribute) and
+                         x.func.attr in ('put_decref_clear', 'put_xdecref_clear', 'put_decref', 'put_xdecref')]:
+                if not call.args:
+                    continue
+                k = recv_key(call.args[0])
+                nm = k.split('.')[-1] if k else None
+                if nm not in (names[1] if isinstance(call.args[0], ast.Name) else names[0]):
+                    continue
+                errs = []
+                for j in range(i - 1, -1, -1):
+                    t = stmts[j]
+                    emits = any(isinstance(x, ast.Call) and isinstance(x.func, ast.Attribute) and x.func.attr in ('putln', 'put') for x in ast.walk(t))
+                    if mentions(t, nm) and emits:
+                        # an error exit emitted by the using statement itself comes after the use (`r = f(v); if (!r) goto error`)
+                        if any(isinstance(x, ast.Call) and isinstance(x.func, ast.Attribute) and x.func.attr.startswith('error_goto') and
+                               not mentions(x, nm) for x in ast.walk(t)):
+                            errs.append(t)
+                        report(nm, t, errs, s, True)
+                        break
+                    if any(isinstance(x, ast.Call) and isinstance(x.func, ast.Attribute) and x.func.attr.startswith('error_goto') for x in ast.walk(t)) and not mentions(t, nm):
+                        errs.append(t)
+            for fld in ('body', 'orelse', 'finalbody'):
+                sub = getattr(s, fld, None)
+                if isinstance(sub, list) and sub and isinstance(sub[0], ast.stmt):
+                    check_list(sub, report, names)
+
+    for m, qn, owner, fn in gen_functions(ctx):
+        def report(nm, use, errs, dec, found, m=m, qn=qn):
+            key = '%s.%s:%s' % (m.short, qn, nm)
+            r.inst(key, sample='%s: %s used at line %d, released at line %d, %d error exit(s) in between' % (key, nm, use.lineno, dec.lineno, len(errs)))
+            if errs:
+                r.violate(key, m.rel, errs[-1].lineno,
+                          '%s emits an error exit (line %d) between the last use of the unmanaged temp %s (line %d) and its decref (line %d): '
+                          'when that error is taken the reference is never released (leak on the error path)' % (qn, errs[-1].lineno, nm, use.lineno, dec.lineno))
+        check_list(fn.body, report, (names, local_names.get(fn, set())))
+    src = ("def g(self, code):\n    code.putln('%s = call(%s);' % (r, self.exit_var))\n    code.putln(code.error_goto_if_null(r, self.pos))\n"
+           "    code.put_decref_clear(self.exit_var, type=t)\n")
+    pc = ast.parse(src).body[0]
+    got = []
+    check_list(pc.body, lambda nm, use, errs, dec, found: got.append(bool(errs)), ({'exit_var'}, set()))
+    r.positive_control(got == [True], 'error exit between use and decref of an unmanaged temp')
+    return r
